@@ -58,6 +58,7 @@ int64_t carquet_column_read_batch(
 
     carquet_error_t error = CARQUET_ERROR_INIT;
     int64_t total_read = 0;
+    int64_t total_non_null = 0;  /* values written so far (the output is dense) */
     size_t value_size = 0;
 
     /* Determine value size for pointer arithmetic */
@@ -92,7 +93,7 @@ int64_t carquet_column_read_batch(
         int64_t values_read = 0;
         int64_t to_read = max_values - total_read;
 
-        uint8_t* value_ptr = (uint8_t*)values + total_read * value_size;
+        uint8_t* value_ptr = (uint8_t*)values + total_non_null * value_size;
         int16_t* def_ptr = def_levels ? def_levels + total_read : NULL;
         int16_t* rep_ptr = rep_levels ? rep_levels + total_read : NULL;
 
@@ -112,6 +113,7 @@ int64_t carquet_column_read_batch(
         }
 
         total_read += values_read;
+        total_non_null += reader->last_read_non_null;
     }
 
     return total_read;
